@@ -33,6 +33,8 @@ class LawfulNum (α : Type) [NumOps α] [Lean.Grind.Field α] where
   rpow_one : ∀ a : α, Pos a → NumOps.rpow a 1 = a
   rpow_mul : ∀ (a : α) (e₁ e₂ : Rat), Pos a → NumOps.rpow (NumOps.rpow a e₁) e₂ = NumOps.rpow a (e₁ * e₂)
   mul_rpow : ∀ (a b : α) (e : Rat), Pos a → Pos b → NumOps.rpow (a * b) e = NumOps.rpow a e * NumOps.rpow b e
+  /-- `0^r = 0` for positive `r` -/
+  rpow_zero_base : ∀ r : Rat, 0 < r → NumOps.rpow (0 : α) r = 0
   /-- for integer exponents the product rule holds for every base (also negative ones) -/
   mul_rpow_int : ∀ (a b : α) (n : Int), NumOps.rpow (a * b) (n : Rat) = NumOps.rpow a (n : Rat) * NumOps.rpow b (n : Rat)
   -- order
